@@ -65,10 +65,29 @@ var c14Scenarios = [][]c14Op{
 // c14Extra: number of additional known values "va<i> vb<i> vc<i>" (job parameter values=N).
 var c14Extra int
 
+// c14ValueBytes > 0 (job parameter valuebytes=N): every extra value is padded with its own filler
+// words to N bytes (total size of the registered texts beyond any cache or budget inside the library).
+var c14ValueBytes int
+
 func c14ExtraValue(i int) string {
 	s := fmt.Sprintf("%c%c", 'a'+i%26, 'a'+i/26)
-	return "va" + s + " vb" + s + " vc" + s
+	v := "va" + s + " vb" + s + " vc" + s
+	if c14ValueBytes == 0 {
+		return v
+	}
+	if t, ok := c14ValueCache[i]; ok && len(t) >= c14ValueBytes {
+		return t
+	}
+	var sb strings.Builder
+	sb.WriteString(v)
+	for k := 0; sb.Len() < c14ValueBytes; k++ {
+		fmt.Fprintf(&sb, " w%s%c%c%c", s, 'a'+k%26, 'a'+(k/26)%26, 'a'+(k/676)%26)
+	}
+	c14ValueCache[i] = sb.String()
+	return c14ValueCache[i]
 }
+
+var c14ValueCache = map[int]string{}
 
 func c14AllText() string {
 	var parts []string
@@ -160,6 +179,7 @@ func c14Sched(c *vrep.Ctx) {
 	}
 	sc := c.ParamInt("scenario", 0)
 	c14Extra = c.ParamInt("values", 0)
+	c14ValueBytes = c.ParamInt("valuebytes", 0)
 	ops := c14Scenarios[sc%len(c14Scenarios)]
 	precomputed := c.Param("precomputed", "no") == "yes"
 	budget := c.ParamInt("budget", c.Pick(3, 5))
@@ -254,6 +274,7 @@ func c14Race(c *vrep.Ctx) {
 	n := c.Pick(32, 64)
 	rounds := c.Pick(20, 60)
 	c14Extra = c.ParamInt("values", 0)
+	c14ValueBytes = c.ParamInt("valuebytes", 0)
 	if c14Extra > 0 {
 		// load variant: many known values that all occur in one text, many callers at once (a worker
 		// that never returns is killed by vcheck and reported as a hang)
